@@ -30,7 +30,9 @@ def _law_real(item, timeout=30):
         return json.dumps([r["events"], r["ending"]])
 
     try:
-        for outcome, w, log in srng.explore(run, max_paths=20000):
+        # (script_state: saving and restoring the generator's state is scripted too, so that code which rewinds
+        #  the generator and thereby re-uses consumed randomness yields a different joint law)
+        for outcome, w, log in srng.explore(run, max_paths=20000, script_state=True):
             n += 1
             law[outcome] = law.get(outcome, Fraction(0)) + w
             for e in log:
@@ -72,6 +74,21 @@ def choose_core():
                         "termWhen": [], "termSimWhen": [], "termAfter": [],
                         "maxSteps": 8, "dt": [1, 1], "table": t, "sched": [[1]],
                     })
+    # fractional weights (printed as w / wscale): only the ratios matter, whatever the weights sum to
+    # (0.5 + 1.5 = 2 items, 0.25 + 0.75 + 2 = 3 items)
+    for form in ("choose", "shuffle"):
+        for ws, scale in (([1, 3], 2), ([1, 3, 8], 4), ([3, 3, 2], 2), ([1, 1], 2)):
+            for tab in tables[:3]:
+                items = [[i + 2, ws[i]] for i in range(len(ws))]
+                main = [["take", 0], [form, items], ["log", "after"], ["disc", [[10, 1], [20, 3]], "dv"], ["take", 9]]
+                t = {"T": [True], "F": [False]}
+                t.update(tab)
+                cases.append({
+                    "defs": [{"pre": [], "inv": [], "body": main}] + subs,
+                    "agents": [1], "monitors": [], "records": [],
+                    "termWhen": [], "termSimWhen": [], "termAfter": [],
+                    "maxSteps": 8, "dt": [1, 1], "table": t, "sched": [[1]], "wscale": scale,
+                })
     # run-time random values: two draws must be independent and uniform
     for lo, hi in ((0, 1), (0, 2), (1, 3)):
         main = [["rand", lo, hi, "x"], ["take", 1], ["rand", lo, hi, "y"], ["rand", 0, 1, "z"], ["take", 2]]
@@ -126,6 +143,21 @@ def compose_core():
                         "monitors": [2], "records": [], "termWhen": [], "termSimWhen": [], "termAfter": [],
                         "maxSteps": 9, "dt": [1, 1], "table": t, "sched": [[1]], "impl": 0,
                     })
+    # a monitor that draws, followed in the same step by a behaviour's pick and draws (independence across
+    # coroutines), with fractional weights and run-time Discrete values in all three kinds of coroutine
+    mon_d = {"pre": [], "inv": [], "body": [["while", "T", [["disc", [[1, 1], [2, 3]], "md"], ["wait"]]]]}
+    picker = {"pre": [], "inv": [], "body": [["choose", [[5, 1], [6, 3]]], ["disc", [[7, 3], [8, 1]], "bd"], ["take", 2]]}
+    pa = {"pre": [], "inv": [], "body": [["take", 3]]}
+    pb = {"pre": [], "inv": [], "body": [["take", 4]]}
+    for scale in (1, 2):
+        top = [["disc", [[0, 1], [1, 1]], "cd"], ["wait"], ["schoose", [[2, 1], [3, 3]]], ["wait"]]
+        sdefs = [sd(hascompose=True, compose=top, monitors=[2])] + subs[:2]
+        cases.append({
+            "defs": [beh, mon_d, mon_loop, picker, pa, pb], "agents": [4], "sdefs": sdefs, "top": 1,
+            "monitors": [2], "records": [], "termWhen": [], "termSimWhen": [], "termAfter": [],
+            "maxSteps": 2, "dt": [1, 1], "table": {"T": [True], "F": [False], "p1": [True], "p2": [True], "p3": [True]},
+            "sched": [[1]], "impl": 0, "wscale": scale,
+        })
     # draws in the top-level compose block and in monitors of the top-level scenario
     for mons in ([2], [3], [2, 3]):
         top = [["rand", 0, 1, "x"], ["wait"], ["rand", 0, 2, "y"], ["rand", 0, 1, "z"], ["sdo", [4]], ["wait"]]
@@ -162,7 +194,7 @@ def main(tier):
     comp = compose_core()
     if tier == "quick":
         core = core[seed() % 2 :: 2]
-        comp = comp[seed() % 2 :: 2] + comp[-3:]
+        comp = comp[seed() % 2 :: 2] + comp[-5:]
     core = core + comp
     n = 50 if tier == "quick" else 800
     rand = gen_dynamic.generate(seed() * 6007 + 19, n, "choose")
